@@ -284,8 +284,36 @@ def zlist(xs):
 
 # ---------------------------------------------------------------- proofs
 
-def check_proofs(prop_id, extra_files=()):
+def run_coqchk(modules, timeout=3000):
+    """independent re-check of the compiled property files and everything they depend on;
+    returns (ok, axioms, detail)"""
+    try:
+        p = subprocess.run(["coqchk", "-o", "-silent", "-Q", COQ, "NS"] + modules, stdout=subprocess.PIPE,
+                           stderr=subprocess.STDOUT, text=True, timeout=timeout, preexec_fn=_big_stack)
+    except subprocess.TimeoutExpired:
+        return False, [], "coqchk timed out"
+    out = p.stdout
+    if p.returncode != 0 or "CONTEXT SUMMARY" not in out:
+        return False, [], "coqchk failed: " + out[-800:]
+    summ = out[out.index("CONTEXT SUMMARY"):]
+    m = re.search(r"\* Axioms:(.*?)\n\s*\n\* Constants", summ, re.S)
+    body = m.group(1).strip() if m else ""
+    axioms = [] if body.startswith("<none>") or not body else [l.strip() for l in body.splitlines() if l.strip()]
+    bad = []
+    for sect in ("type-in-type", "unsafe (co)fixpoints", "positivity is assumed"):
+        mm = re.search(re.escape(sect) + r":\s*(\S.*)", summ)
+        if mm and not mm.group(1).startswith("<none>"):
+            bad.append("%s: %s" % (sect, mm.group(1)))
+    short = [a.replace("Coq.Reals.", "").replace("Coq.Logic.", "") for a in axioms]
+    unexpected = [a for a in short if a not in ALLOWED_AXIOMS]
+    if unexpected or bad:
+        return False, short, "coqchk: " + "; ".join(unexpected + bad)
+    return True, short, ""
+
+
+def check_proofs(prop_id, extra_files=(), deep=False):
     """build Props/<id>.vo and what it depends on; check assumptions and forbidden words.
+    deep: also re-check the compiled files with coqchk.
     Returns dict(ok, obligations, discharged, axioms, detail, names)."""
     info = {"ok": True, "obligations": 0, "discharged": 0, "axioms": [], "detail": "", "names": []}
     src = os.path.join(COQ, "Props", prop_id + ".v")
@@ -352,6 +380,12 @@ def check_proofs(prop_id, extra_files=()):
         info.update(ok=False, detail="axioms outside the allowlist: " + ", ".join(unexpected))
     if n_reports < len(names):
         info.update(ok=False, detail="only %d Print Assumptions reports for %d theorems" % (n_reports, len(names)))
+    if deep and info["ok"]:
+        mods = ["NS.Props." + os.path.basename(f)[:-2] for f in srcs]
+        ok2, ax2, det2 = run_coqchk(mods)
+        info["coqchk"] = {"ok": ok2, "axioms": ax2, "modules": mods}
+        if not ok2:
+            info.update(ok=False, detail=det2)
     if info["ok"]:
         info["discharged"] = len(names)
     return info
